@@ -2,8 +2,8 @@
 import z3
 
 from pyvc.core import EngineError
-from pyvc.interp import LoopSpec, Spec
-from pyvc.models import SymSeq, PyList, TAtom, Namespace
+from pyvc.interp import LoopSpec, Spec, Interp, OBJECT
+from pyvc.models import SymSeq, PyList, TAtom, Namespace, EffectLog
 from pyvc.values import Atom, PyRaise, ExcVal, PyObj, Model, Builtin
 from pyvc.runner import Unit
 from . import client_model as CM
@@ -482,6 +482,85 @@ def u_destination_up(ctx, index):
             z3.Implies(z3.And(z3.Not(has0), qf0, z3.ToReal(h.queue.length()) < h.low), z3.BoolVal(resumed)))
 
 
+# ---- CarbonClientManager: routing of one datapoint to the send queues ---------------------------
+
+def u_manager_send(ctx, index):
+  """sendDatapoint / sendHighPriorityDatapoint / getFactories / getDestinations (DESTINATION_POOL_REPLICAS
+  off): the datapoint is handed once to the factory of each destination the router names *now*
+  (asked on this very call), to the no-destination buffer when the router names none, and to nobody
+  else; nothing is remembered between calls."""
+  from pyvc.models import PyList
+  MGR = FACTORY.split(':')[0] + ':CarbonClientManager'
+  d1, d2, d3 = ('10.0.0.1', 2004, 'a'), ('10.0.0.2', 2004, 'b'), ('10.0.0.3', 2004, 'c')
+  log = EffectLog()
+
+  class Fac(Model):
+    def __init__(self, name):
+      self.name = name
+
+    def py_sendDatapoint(self, ip2, m, dp):
+      log.add('send', (self.name, m, dp))
+
+    def py_sendHighPriorityDatapoint(self, ip2, m, dp):
+      log.add('sendHP', (self.name, m, dp))
+  fake, f1, f2 = Fac('no-destination buffer'), Fac('d1'), Fac('d2')
+  # precondition (manager invariant): the router only names destinations that have a factory --
+  # startClient / destinationUp add to the router after the factory exists, stopClient removes from
+  # the router before the factory goes
+  table = {None: fake, d1: f1, d2: f2, d3: Fac('d3')}
+
+  class Factories(Model):
+    def py_get(self, ip2, k, default=None):
+      return table.get(k, default)
+
+    def py___getitem__(self, ip2, k):
+      if k not in table:
+        raise PyRaise(ExcVal('KeyError', (k,)))
+      return table[k]
+  answers = [[], [d1], [d2], [d1, d2], [d2, d1], [d3, d1, d2]]
+  which = [ctx.choose(len(answers), 'router answer (call %d)' % k) for k in (1, 2)]
+  asked = []
+
+  class Router(Model):
+    def py_getDestinations(self, ip2, key):
+      asked.append(key)
+      return PyList(list(answers[which[len(asked) - 1]]))
+  settings = Namespace('settings', {'DESTINATION_POOL_REPLICAS': False}, item_access=True)
+  ip = Interp(ctx, index, bindings={FACTORY.split(':')[0]: {'settings': settings, 'log': Namespace('log', {}), 'state': Namespace('state', {}),
+                                                            'Service': OBJECT}})
+  mgr = pyobj(index, MGR, {'router': Router(), 'client_factories': Factories(), 'pooled_factories': None}, name='manager')
+  hp = ctx.choose(2, 'high priority') == 1
+  m, dp = ctx.fresh(Atom, 'metric'), ctx.fresh(DP, 'dp')
+  raised = None
+  try:
+    for k in (0, 1):
+      # two calls in a row with independent router answers: the second must follow the second answer
+      ip.run(MGR + ('.sendHighPriorityDatapoint' if hp else '.sendDatapoint'), [m, dp], self_obj=mgr)
+      if k == 0:
+        first = list(log.events)
+        del log.events[:]
+  except PyRaise as e:
+    raised = e.exc
+  ctx.cover('manager/returns')
+  ctx.check('C07/manager.sendDatapoint/no_raise', z3.BoolVal(raised is None))
+  if raised is not None:
+    return
+  ctx.check('C07/manager.sendDatapoint/asks_the_router_on_every_call', z3.BoolVal(len(asked) == 2))
+  for (k, evs) in ((0, first), (1, list(log.events))):
+    want = []
+    for d in (answers[which[k]] or [None]):
+      nm = table.get(d, None)
+      nm = (fake if nm is None else nm).name
+      if nm not in want:
+        want.append(nm)
+    got = [e[1][0] for e in evs]
+    kinds = set(e[0] for e in evs)
+    ctx.check('C07/manager.sendDatapoint/once_to_each_named_destination_or_the_buffer',
+              z3.BoolVal(sorted(got) == sorted(want) and kinds <= {'sendHP' if hp else 'send'}))
+    ctx.check('C07/manager.sendDatapoint/datapoint_unchanged',
+              z3.And(*[z3.And(TAtom.enc(ip, e[1][1]) == m, e[1][2] == dp) for e in evs]) if evs else z3.BoolVal(True))
+
+
 # ---- wire encodings (C15) ------------------------------------------------------------------------
 
 DP_TS_INT = z3.Function('dp_timestamp_trunc', DP, z3.IntSort())
@@ -671,6 +750,10 @@ def _all_units():
     Unit('client.destinationUp', u_destination_up, [F + '.destinationUp'],
          expect_covers=['destinationUp/returns', 'destinationUp/added'], replay=replay_client,
          native_clauses=['C09/destinationUp/first_destination_back_resumes_receivers', 'C09/destinationUp/rejoining_destination_releases_its_full_signal']),
+    Unit('client.manager.sendDatapoint', u_manager_send,
+         [F.split(':')[0] + ':CarbonClientManager.sendDatapoint', F.split(':')[0] + ':CarbonClientManager.sendHighPriorityDatapoint',
+          F.split(':')[0] + ':CarbonClientManager.getFactories', F.split(':')[0] + ':CarbonClientManager.getDestinations'],
+         expect_covers=['manager/returns']),
     Unit('client.line._sendDatapointsNow', u_line_send_now, [LINE_P + '._sendDatapointsNow'],
          expect_covers=['line/returns', 'line/one_datapoint']),
     Unit('client.pickle._sendDatapointsNow', u_pickle_send_now, [PICKLE_P + '._sendDatapointsNow'], expect_covers=['pickle/returns']),
